@@ -11,6 +11,8 @@
 // then Z) and the two tables are compared at start-up.  (For the rotating-frame orders the enum names of Imath do not
 // follow Shoemake's naming; the property statement does not talk about names, so only the legend is used there.)
 // Tolerances are absolute in eps(T) on matrix entries (magnitude <= 1); "measured" = worst seen on the unchanged tree.
+// Sub-checks 6 (dest_reuse: destination objects pre-filled with junk) and 7 (alias: the object itself as the argument)
+// compare bitwise with the same call on a fresh object / on copies and need no tolerance.
 #include "vpbt.h"
 #include "oracles.h"
 #include "gens.h"
@@ -893,5 +895,380 @@ template <class T> static void make_near_case (vp::Ctx& c)
     VP_REQUIRE_LABELS (name, "target_in_other_order", "alternative_representation_chosen", "angles_beyond_one_period")
 C11_NEAR (make_near_f, float)
 C11_NEAR (make_near_d, double)
+
+// =====================================================================================
+// 6. previous contents of the destination: every function that sets an object (or a documented part of it) gives the
+//    same result, slot for slot and bit for bit, whatever the object held before - all 24 orders per case.
+//    What each function is documented to set (comments above the declarations in ImathEuler.h / ImathMatrix.h /
+//    ImathMatrixAlgo.h):
+//      extract(M33|M44|Quat)  "Assign from ..."            -> the three angles; the order is an INPUT and is preserved
+//      setXYZVector(v)        "Set the euler value"         -> the three angles; order preserved
+//      operator=(Vec3)                                      -> the three angles; order preserved
+//      setOrder(o) / set(..)  "Set the order. This does NOT convert the angles, but it does reorder the input vector"
+//                                                           -> all four order fields; the angle slots keep their
+//                                                              values up to a permutation (nothing more is asserted)
+//      operator=(Euler)                                     -> everything
+//      Matrix44::setEulerAngles "Set matrix to rotation by XYZ euler angles" -> all 16 slots
+//      Matrix22/33::setRotation "Set matrix to rotation by r"                -> all 4 / 9 slots
+//      extractEulerXYZ/ZYX(mat, rot), extractEuler(mat, rot)  rot is @param[out] -> every slot of rot
+// =====================================================================================
+enum
+{
+    JS_NICE, // small non-zero values different from 1
+    JS_NAN,  // a slot that is not overwritten, or an old value that enters the arithmetic, stays NaN
+    JS_MAX,
+    JS_INF,
+    JS_WIDE, // +-[1,2)*2^e, e in +-40
+    JS_ZERO,
+    JS_DENORM,
+    JS_N
+};
+template <class T> static inline T junk_scalar (vp::Src& s, int kind)
+{
+    typedef std::numeric_limits<T> L;
+    switch (kind)
+    {
+        case JS_NICE: {
+            T v = gen::nice<T> (s);
+            if (v == 0 || v == 1) v = (T) 3;
+            return v;
+        }
+        case JS_NAN: return L::quiet_NaN ();
+        case JS_MAX: return s.coin () ? L::max () : -L::max ();
+        case JS_INF: return s.coin () ? L::infinity () : -L::infinity ();
+        case JS_WIDE: {
+            int ex = (int) s.range (-40, 40);
+            return gen::with_exp<T> (s, ex);
+        }
+        case JS_ZERO: return (T) 0;
+        default: return s.coin () ? L::denorm_min () : -L::denorm_min ();
+    }
+}
+static const char* junk_scalar_name (int k)
+{
+    static const char* n[JS_N] = { "small values", "NaN", "+-max", "+-inf", "+-[1,2)*2^e", "zero", "+-denorm_min" };
+    return n[k];
+}
+enum
+{
+    JM_TRANSLATION, // identity + translation row
+    JM_PROJECTIVE,  // identity + non-zero last column
+    JM_W,           // identity with [3][3] != 1
+    JM_ALL_FIRST,   // JM_ALL_FIRST + k: all 16 slots filled with scalar fill k
+    JM_N = JM_ALL_FIRST + JS_N
+};
+template <class T> static Matrix44<T> junk44 (vp::Src& s, int kind)
+{
+    Matrix44<T> m; // identity
+    switch (kind)
+    {
+        case JM_TRANSLATION:
+            for (int j = 0; j < 3; ++j)
+                m[3][j] = junk_scalar<T> (s, JS_NICE);
+            break;
+        case JM_PROJECTIVE:
+            for (int i = 0; i < 3; ++i)
+                m[i][3] = junk_scalar<T> (s, JS_NICE);
+            break;
+        case JM_W: m[3][3] = junk_scalar<T> (s, JS_NICE); break;
+        default:
+            for (int i = 0; i < 4; ++i)
+                for (int j = 0; j < 4; ++j)
+                    m[i][j] = junk_scalar<T> (s, kind - JM_ALL_FIRST);
+            break;
+    }
+    return m;
+}
+static const char* junk44_name (int k)
+{
+    return k == JM_TRANSLATION ? "identity + translation row" : k == JM_PROJECTIVE ? "identity + last column" : k == JM_W ? "identity with [3][3] != 1" : junk_scalar_name (k - JM_ALL_FIRST);
+}
+template <class T> static Vec3<T> junk3 (vp::Src& s, int kind)
+{
+    T a = junk_scalar<T> (s, kind);
+    T b = junk_scalar<T> (s, kind);
+    T cc = junk_scalar<T> (s, kind);
+    return Vec3<T> (a, b, cc);
+}
+template <class T> static inline bool same3 (const Vec3<T>& a, const Vec3<T>& b) { return same<T> (a.x, b.x) && same<T> (a.y, b.y) && same<T> (a.z, b.z); }
+template <class T> static inline bool perm3 (const Vec3<T>& a, const Vec3<T>& b)
+{
+    static const int P[6][3] = { { 0, 1, 2 }, { 0, 2, 1 }, { 1, 0, 2 }, { 1, 2, 0 }, { 2, 0, 1 }, { 2, 1, 0 } };
+    for (auto& p : P)
+        if (same<T> (a[0], b[p[0]]) && same<T> (a[1], b[p[1]]) && same<T> (a[2], b[p[2]])) return true;
+    return false;
+}
+template <class T> static inline int diff44 (const Matrix44<T>& a, const Matrix44<T>& b)
+{
+    for (int i = 0; i < 4; ++i)
+        for (int j = 0; j < 4; ++j)
+            if (!same<T> (a[i][j], b[i][j])) return 4 * i + j;
+    return -1;
+}
+template <class T> static inline bool order_is (const Euler<T>& e, const OrderInfo& o)
+{
+    return (int) e.order () == o.value && e.frameStatic () == o.frame_static && e.initialRepeated () == o.repeated && e.parityEven () == o.even && (int) e.initialAxis () == o.i;
+}
+template <class T> static inline std::string es (const Euler<T>& e)
+{
+    std::ostringstream o;
+    o << vs (Vec3<T> (e)) << " order 0x" << std::hex << (int) e.order () << std::dec;
+    return o.str ();
+}
+enum
+{
+    L6_GIMBAL_MATRIX,
+    L6_RANDOM_ROTATION
+};
+template <class T> static void dest_case (vp::Ctx& c)
+{
+    typedef Euler<T> E;
+    vp::Src&         s = c.s;
+    // ---- inputs
+    bool  gim = s.coin ();
+    QM<3> R;
+    T     g0 = 0, g2 = 0, gN = 0, gR = 0;
+    if (gim)
+    {
+        g0 = gen_angle<T> (s);
+        g2 = gen_angle<T> (s);
+        gN = gen_gimbal<T> (s, false);
+        gR = gen_gimbal<T> (s, true);
+        c.label (L6_GIMBAL_MATRIX);
+    }
+    else
+    {
+        long double n[3];
+        unit3 (s, n);
+        long double a = PI_L * (2 * (long double) s.unit () - 1);
+        R             = rodrigues_rowvec<3> ((quad) n[0], (quad) n[1], (quad) n[2], (quad) a);
+        c.label (L6_RANDOM_ROTATION);
+    }
+    Quat<T> qin = gen_quat<T> (s);
+    Vec3<T> av  = draw_vec3<T> ([&] { return gen_angle<T> (s); });
+    Vec3<T> tr  = junk3<T> (s, JS_NICE);
+    int     shift = 1 + (int) s.below (23);
+    VP_NOTE (c, TN<T>::e () << (gim ? " gimbal matrices from angles (" : " random rotation (") << g0 << ", " << gN << " / " << gR << ", " << g2 << "), quaternion (" << qin.r << " " << qin.v.x << " " << qin.v.y << " " << qin.v.z << "), angle vector " << vs (av) << ", junk order shift " << shift << "; each destination pre-filled with every junk fill x 24 orders");
+    c.nt (true);
+    const CS cg0 = cs_of ((quad) g0), cg2 = cs_of ((quad) g2), cgN = cs_of ((quad) gN), cgR = cs_of ((quad) gR);
+
+    // ---- junk objects of this case: one angle triple per scalar fill
+    Vec3<T> jv[JS_N];
+    for (int k = 0; k < JS_N; ++k)
+        jv[k] = junk3<T> (s, k);
+
+    for (int oi = 0; oi < 24; ++oi)
+    {
+        const OrderInfo&  o    = g_orders[oi];
+        const OrderInfo&  oj   = g_orders[(oi + shift) % 24]; // a different order, as "previous contents" of the order fields
+        typename E::Order ordv = ord<T> (o);
+        Matrix33<T>       M3;
+        Matrix44<T>       M4;
+        if (gim)
+            round_to (euler_matrix (o, cg0, o.repeated ? cgR : cgN, cg2), M3, M4);
+        else
+            round_to (R, M3, M4);
+        Matrix44<T> M4t = M4; // the same rotation in a matrix with a translation row (extract: "assumed to be affine")
+        M4t[3][0] = tr.x, M4t[3][1] = tr.y, M4t[3][2] = tr.z;
+        // fresh references
+        E f3 (ordv), f4 (ordv), fq (ordv), fx (ordv);
+        f3.extract (M3);
+        f4.extract (M4);
+        fq.extract (qin);
+        fx.setXYZVector (av);
+        for (int k = 0; k < JS_N; ++k)
+        {
+            const E J (jv[k], ordv);
+            E       a = J;
+            a.extract (M3);
+            VP_REQUIRE (c, same3<T> (a, f3) && order_is (a, o), "extract33/depends-on-previous-contents", TN<T>::e () << " " << o.name << " extract(Matrix33) on an Euler that held " << es (J) << " gives " << es (a) << " but on a fresh Euler(" << o.name << ") " << es (f3) << " M=" << mstr (M3, 3));
+            a = J;
+            a.extract (M4);
+            VP_REQUIRE (c, same3<T> (a, f4) && order_is (a, o), "extract44/depends-on-previous-contents", TN<T>::e () << " " << o.name << " extract(Matrix44) on an Euler that held " << es (J) << " gives " << es (a) << " but on a fresh Euler(" << o.name << ") " << es (f4) << " M=" << mstr (M4, 3));
+            a = J;
+            a.extract (M4t);
+            VP_REQUIRE (c, same3<T> (a, f4) && order_is (a, o), "extract44/translation-row-takes-part", TN<T>::e () << " " << o.name << " extract(Matrix44 with translation " << vs (tr) << ") gives " << es (a) << " but without the translation " << es (f4) << " M=" << mstr (M4, 3));
+            a = J;
+            a.extract (qin);
+            VP_REQUIRE (c, same3<T> (a, fq) && order_is (a, o), "extractQuat/depends-on-previous-contents", TN<T>::e () << " " << o.name << " extract(Quat) on an Euler that held " << es (J) << " gives " << es (a) << " but on a fresh Euler(" << o.name << ") " << es (fq));
+            a = J;
+            a.setXYZVector (av);
+            VP_REQUIRE (c, same3<T> (a, fx) && order_is (a, o), "setXYZVector/depends-on-previous-contents", TN<T>::e () << " " << o.name << " setXYZVector(" << vs (av) << ") on an Euler that held " << es (J) << " gives " << es (a) << " but on a fresh Euler(" << o.name << ") " << es (fx));
+            a = J;
+            a = av; // operator= (Vec3)
+            VP_REQUIRE (c, same3<T> (a, av) && order_is (a, o), "assign-vec3/depends-on-previous-contents", TN<T>::e () << " " << o.name << " e = " << vs (av) << " on an Euler that held " << es (J) << " gives " << es (a));
+            // order setters: the object held another order (and junk angles) before
+            const E K (jv[k], ord<T> (oj));
+            a = K;
+            a.setOrder (ordv);
+            VP_REQUIRE (c, order_is (a, o), "setOrder/depends-on-previous-contents", TN<T>::e () << " setOrder(" << o.name << ") on an Euler that held " << es (K) << " gives order 0x" << std::hex << (int) a.order () << std::dec << " static=" << a.frameStatic () << " repeated=" << a.initialRepeated () << " even=" << a.parityEven () << " axis=" << (int) a.initialAxis ());
+            VP_REQUIRE (c, perm3<T> (a, K), "setOrder/changes-angle-values", TN<T>::e () << " setOrder(" << o.name << ") on an Euler that held " << es (K) << " leaves angles " << vs (Vec3<T> (a)) << " (not a permutation of the previous ones)");
+            a = K;
+            a.set ((typename E::Axis) o.i, !o.frame_static, o.even, o.repeated);
+            VP_REQUIRE (c, order_is (a, o), "set/depends-on-previous-contents", TN<T>::e () << " set(" << o.i << "," << !o.frame_static << "," << o.even << "," << o.repeated << ") on an Euler that held " << es (K) << " gives order 0x" << std::hex << (int) a.order () << std::dec);
+            VP_REQUIRE (c, perm3<T> (a, K), "set/changes-angle-values", TN<T>::e () << " set(..) for " << o.name << " on an Euler that held " << es (K) << " leaves angles " << vs (Vec3<T> (a)));
+            a = K;
+            a = fx; // operator= (Euler)
+            VP_REQUIRE (c, same3<T> (a, fx) && order_is (a, o), "assign-euler/depends-on-previous-contents", TN<T>::e () << " e = " << es (fx) << " on an Euler that held " << es (K) << " gives " << es (a));
+        }
+    }
+    // ---- Matrix44::setEulerAngles, Matrix33/22::setRotation, the free extract functions
+    {
+        Matrix44<T> F;
+        F.setEulerAngles (av);
+        for (int k = 0; k < JM_N; ++k)
+        {
+            const Matrix44<T>  J   = junk44<T> (s, k);
+            Matrix44<T>        M   = J;
+            const Matrix44<T>& ref = M.setEulerAngles (av);
+            VP_REQUIRE (c, &ref == &M, "setEulerAngles-returns-this", "setEulerAngles does not return *this");
+            int d = diff44 (M, F);
+            VP_REQUIRE (c, d < 0, "setEulerAngles/depends-on-previous-contents", TN<T>::e () << " Matrix44::setEulerAngles" << vs (av) << " on a matrix that held [" << junk44_name (k) << "] " << mstr (J, 4) << " gives " << mstr (M, 4) << " but on a fresh matrix " << mstr (F, 4) << " (slot [" << d / 4 << "][" << d % 4 << "])");
+            // Euler::toMatrix44 assigned over the same junk
+            M                   = J;
+            const E           e1 (av, E::XYZ);
+            const Matrix44<T> FE = e1.toMatrix44 ();
+            M                   = e1.toMatrix44 ();
+            d                   = diff44 (M, FE);
+            VP_REQUIRE (c, d < 0, "toMatrix44/depends-on-previous-contents", TN<T>::e () << " M = Euler(XYZ)" << vs (av) << ".toMatrix44() assigned to a matrix that held [" << junk44_name (k) << "] gives " << mstr (M, 4) << " instead of " << mstr (FE, 4));
+        }
+        // the loop idiom: the same matrix set twice
+        Vec3<T>     av2 = draw_vec3<T> ([&] { return gen_angle<T> (s); });
+        Matrix44<T> M;
+        M.setEulerAngles (av2);
+        M.setEulerAngles (av);
+        int d = diff44 (M, F);
+        VP_REQUIRE (c, d < 0, "setEulerAngles/depends-on-previous-contents", TN<T>::e () << " Matrix44::setEulerAngles" << vs (av) << " after setEulerAngles" << vs (av2) << " on the same matrix gives " << mstr (M, 4) << " but on a fresh matrix " << mstr (F, 4));
+
+        // out-parameters of the free functions: the matrix of the XYZ / ZYX builders with a translation row
+        Matrix44<T> BX = F, BZ = Euler<T> (av, Euler<T>::ZYX).toMatrix44 ();
+        BX[3][0] = BZ[3][0] = tr.x, BX[3][1] = BZ[3][1] = tr.y, BX[3][2] = BZ[3][2] = tr.z;
+        Vec3<T> fxr ((T) 0, (T) 0, (T) 0), fzr ((T) 0, (T) 0, (T) 0);
+        extractEulerXYZ (BX, fxr);
+        extractEulerZYX (BZ, fzr);
+        T           rt = av.x;
+        Matrix22<T> F2;
+        F2.setRotation (rt);
+        Matrix33<T> F3;
+        F3.setRotation (rt);
+        T f2r = 0, f3r = 0;
+        extractEuler (F2, f2r);
+        extractEuler (F3, f3r);
+        for (int k = 0; k < JS_N; ++k)
+        {
+            Vec3<T> r = jv[k];
+            extractEulerXYZ (BX, r);
+            VP_REQUIRE (c, same3<T> (r, fxr), "extractEulerXYZ/depends-on-previous-contents", TN<T>::e () << " extractEulerXYZ(M, rot) with rot pre-filled " << vs (jv[k]) << " gives " << vs (r) << " but with rot = 0 " << vs (fxr) << " M=" << mstr (BX, 4));
+            r = jv[k];
+            extractEulerZYX (BZ, r);
+            VP_REQUIRE (c, same3<T> (r, fzr), "extractEulerZYX/depends-on-previous-contents", TN<T>::e () << " extractEulerZYX(M, rot) with rot pre-filled " << vs (jv[k]) << " gives " << vs (r) << " but with rot = 0 " << vs (fzr) << " M=" << mstr (BZ, 4));
+            T r2 = jv[k].x, r3 = jv[k].y;
+            extractEuler (F2, r2);
+            extractEuler (F3, r3);
+            VP_REQUIRE (c, same<T> (r2, f2r) && same<T> (r3, f3r), "extractEuler2D/depends-on-previous-contents", TN<T>::e () << " extractEuler(Matrix22/Matrix33, rot) with rot pre-filled " << jv[k].x << " / " << jv[k].y << " gives " << r2 << " / " << r3 << " but with rot = 0 " << f2r << " / " << f3r);
+            Matrix22<T> J2 (jv[k].x, jv[k].y, jv[k].z, jv[k].x);
+            J2.setRotation (rt);
+            bool ok2 = same<T> (J2[0][0], F2[0][0]) && same<T> (J2[0][1], F2[0][1]) && same<T> (J2[1][0], F2[1][0]) && same<T> (J2[1][1], F2[1][1]);
+            VP_REQUIRE (c, ok2, "m22-setRotation/depends-on-previous-contents", TN<T>::e () << " Matrix22::setRotation(" << rt << ") on a matrix filled with [" << junk_scalar_name (k) << "] gives " << mstr (J2, 2) << " but on a fresh matrix " << mstr (F2, 2));
+            Matrix33<T> J3 (jv[k].x, jv[k].y, jv[k].z, jv[k].y, jv[k].z, jv[k].x, jv[k].z, jv[k].x, jv[k].y);
+            J3.setRotation (rt);
+            bool ok3 = true;
+            for (int i = 0; i < 3; ++i)
+                for (int j = 0; j < 3; ++j)
+                    ok3 = ok3 && same<T> (J3[i][j], F3[i][j]);
+            VP_REQUIRE (c, ok3, "m33-setRotation/depends-on-previous-contents", TN<T>::e () << " Matrix33::setRotation(" << rt << ") on a matrix filled with [" << junk_scalar_name (k) << "] gives " << mstr (J3, 3) << " but on a fresh matrix " << mstr (F3, 3));
+        }
+    }
+}
+#define C11_DEST(name, T)                                                                                                                                                                                                                                                                                                                                                                                                                                                                                                                                                                                                                                                          \
+    VP_RANDOM (name, 20000, 400000, "rotation (1/2: the order's own product with the middle angle at gimbal lock; 1/2: random axis/angle), a quaternion, an angle vector x ALL 24 orders x EVERY junk fill of the destination (Euler angles = small values / NaN / +-max / +-inf / +-2^e / 0 / +-denorm_min, order fields = another order; Matrix44 = identity+translation row, identity+last column, identity with [3][3]!=1, all-slot fills, the previous result of the same setter): extract(M33/M44/Quat), setXYZVector, operator=, setOrder, set, setEulerAngles, setRotation, extractEulerXYZ/ZYX/extractEuler compared bitwise with the result on a fresh object; every case non-trivial") \
+    {                                                                                                                                                                                                                                                                                                                                                                                                                                                                                                                                                                                                                                                                              \
+        dest_case<T> (c);                                                                                                                                                                                                                                                                                                                                                                                                                                                                                                                                                                                                                                                          \
+    }                                                                                                                                                                                                                                                                                                                                                                                                                                                                                                                                                                                                                                                                              \
+    VP_LABELS (name, "gimbal_matrix", "random_rotation")                                                                                                                                                                                                                                                                                                                                                                                                                                                                                                                                                                                                                           \
+    VP_REQUIRE_LABELS (name, "gimbal_matrix", "random_rotation")
+C11_DEST (dest_reuse_f, float)
+C11_DEST (dest_reuse_d, double)
+
+// =====================================================================================
+// 7. aliased arguments: the object itself (or a copy held by it) passed as the argument gives bit for bit what the same
+//    call gives on an independent copy - all 24 orders per case
+// =====================================================================================
+enum
+{
+    L7_GIMBAL
+};
+template <class T> static void alias_case (vp::Ctx& c)
+{
+    typedef Euler<T> E;
+    vp::Src&         s = c.s;
+    T                a0 = gen_angle<T> (s), a2 = gen_angle<T> (s);
+    bool             gim = s.chance (64);
+    T                aN = gim ? gen_gimbal<T> (s, false) : gen_angle<T> (s);
+    T                aR = gim ? gen_gimbal<T> (s, true) : gen_angle<T> (s);
+    int              shift = 1 + (int) s.below (23);
+    if (gim) c.label (L7_GIMBAL);
+    VP_NOTE (c, TN<T>::e () << " angles (" << a0 << ", " << aN << " / " << aR << ", " << a2 << ") reorder shift " << shift << " x 24 orders");
+    c.nt (a0 != 0 && a2 != 0 && aN != 0 && aR != 0);
+    for (int oi = 0; oi < 24; ++oi)
+    {
+        const OrderInfo&  o    = g_orders[oi];
+        typename E::Order ordv = ord<T> (o);
+        const Vec3<T>     ang (a0, o.repeated ? aR : aN, a2);
+        const E           e0 (ang, ordv);
+        // makeNear with the object itself as the target
+        {
+            E a = e0, b = e0;
+            const E cp = e0;
+            a.makeNear (a);
+            b.makeNear (cp);
+            VP_REQUIRE (c, same3<T> (a, b) && a.order () == b.order (), "alias/makeNear", TN<T>::e () << " " << o.name << vs (ang) << ": e.makeNear(e) gives " << es (a) << " but e.makeNear(copy of e) gives " << es (b));
+        }
+        // nearestRotation / simpleXYZRotation with the vector itself as the target
+        {
+            Vec3<T>       x = ang, y = ang;
+            const Vec3<T> cp = ang;
+            E::nearestRotation (x, x, ordv);
+            E::nearestRotation (y, cp, ordv);
+            VP_REQUIRE (c, same3<T> (x, y), "alias/nearestRotation", TN<T>::e () << " nearestRotation(v,v," << o.name << ") gives " << vs (x) << " but nearestRotation(v,copy of v) gives " << vs (y) << " v=" << vs (ang));
+            x = ang, y = ang;
+            E::simpleXYZRotation (x, x);
+            E::simpleXYZRotation (y, cp);
+            VP_REQUIRE (c, same3<T> (x, y), "alias/simpleXYZRotation", TN<T>::e () << " simpleXYZRotation(v,v) gives " << vs (x) << " but simpleXYZRotation(v,copy of v) gives " << vs (y) << " v=" << vs (ang));
+        }
+        // conversions of the object stored back into the object
+        {
+            const OrderInfo& o2 = g_orders[(oi + shift) % 24];
+            E                a  = e0;
+            a                   = E (a, ord<T> (o2)); // re-ordering constructor from itself
+            const E b (e0, ord<T> (o2));
+            VP_REQUIRE (c, same3<T> (a, b) && a.order () == b.order (), "alias/reorder", TN<T>::e () << " e = Euler(e," << o2.name << ") gives " << es (a) << " but Euler(copy," << o2.name << ") gives " << es (b) << " e=" << o.name << vs (ang));
+            E x3 = e0, x4 = e0, xq = e0, f3 (ordv), f4 (ordv), fq (ordv);
+            x3.extract (x3.toMatrix33 ());
+            x4.extract (x4.toMatrix44 ());
+            xq.extract (xq.toQuat ());
+            f3.extract (e0.toMatrix33 ());
+            f4.extract (e0.toMatrix44 ());
+            fq.extract (e0.toQuat ());
+            VP_REQUIRE (c, same3<T> (x3, f3) && same3<T> (x4, f4) && same3<T> (xq, fq), "alias/extract-own-matrix", TN<T>::e () << " " << o.name << vs (ang) << ": e.extract(e.toMatrix33()/toMatrix44()/toQuat()) gives " << es (x3) << " / " << es (x4) << " / " << es (xq) << " but a fresh Euler extracts " << es (f3) << " / " << es (f4) << " / " << es (fq));
+            E        sa = e0;
+            const E& r  = sa;
+            sa          = r; // self-assignment
+            VP_REQUIRE (c, same3<T> (sa, e0) && sa.order () == ordv, "alias/self-assign", TN<T>::e () << " e = e changes " << es (e0) << " into " << es (sa));
+            E y = e0;
+            y.setXYZVector (y.toXYZVector ());
+            VP_REQUIRE (c, same3<T> (y, e0) && y.order () == ordv, "alias/setXYZVector-own-vector", TN<T>::e () << " e.setXYZVector(e.toXYZVector()) changes " << es (e0) << " into " << es (y));
+        }
+    }
+}
+#define C11_ALIAS(name, T)                                                                                                                                                                                                                                                                                                                                              \
+    VP_RANDOM (name, 40000, 800000, "angle triple from the angle classes (middle angle at gimbal lock in 1/4) x ALL 24 orders: e.makeNear(e), nearestRotation(v,v), simpleXYZRotation(v,v), e = Euler(e,o2), e.extract(e.toMatrix33()/toMatrix44()/toQuat()), e = e, e.setXYZVector(e.toXYZVector()) compared bitwise with the same call on independent copies; non-trivial = no zero angle") \
+    {                                                                                                                                                                                                                                                                                                                                                                   \
+        alias_case<T> (c);                                                                                                                                                                                                                                                                                                                                              \
+    }                                                                                                                                                                                                                                                                                                                                                                   \
+    VP_LABELS (name, "gimbal")                                                                                                                                                                                                                                                                                                                                          \
+    VP_REQUIRE_LABELS (name, "gimbal")
+C11_ALIAS (alias_f, float)
+C11_ALIAS (alias_d, double)
 
 VP_MAIN ("C11")
